@@ -139,7 +139,7 @@ def b_equiv(ctx):
     from pylife.materialdata.woehler.likelihood import Likelihood
     warnings.simplefilter('ignore')
     analyzers = ['Elementary', 'Probit', 'MaxLikeInf', 'MaxLikeFull']
-    ctx.bound = "seeded synthetic test series (8 load levels, 3-5 tests each, run-outs on the lower levels) x analyzers {Elementary, Probit, MaxLikeInf, MaxLikeFull} x load scales {0.5, 2, 1000, 1e-4, 1e-6} x cycle scales {0.1, 10} x 3 row permutations x row labels {repeating, strings, shuffled}"
+    ctx.bound = "seeded synthetic test series (8 load levels, 3-5 tests each, run-outs on the lower levels) x analyzers {Elementary, Probit, MaxLikeInf, MaxLikeFull} x load scales {0.5, 2, 1000, 1e-4, 1e-6} x cycle scales {0.1, 10, 1e-3, 1e-6} x 3 row permutations x row labels {repeating, strings, shuffled}"
     ctx.rule = "non-trivial: data set with run-outs and fractures on mixed levels; distinct by (data set, analyzer, transformation)"
     for name, df, limit in _datasets(ctx):
         for an in analyzers:
@@ -167,7 +167,8 @@ def b_equiv(ctx):
                     bad.append('SD')
                 if bad:
                     ctx.fail(f'C18:load-scale:{an}{dv(ref, got)}:{name}', f'{an} on {name}: load scale {c}: {bad} not equivariant: {dict(got[["SD", "k_1", "ND", "TN", "TS"]])} vs {dict(ref[["SD", "k_1", "ND", "TN", "TS"]])}', {'dataset': name, 'analyzer': an, 'c': c})
-            for c in (0.1, 10.0):
+            # (1e-6, 1e-3: cycles tabulated in millions / thousands - added after seed C18-e bounded ND from below by one cycle unit)
+            for c in (0.1, 10.0, 1e-3, 1e-6):
                 d2 = df.copy()
                 d2['cycles'] = d2['cycles'] * c
                 got = _analyze(an, d2, limit * c)
